@@ -409,6 +409,93 @@ def canon_imports(imports: List[Dict[str, Any]]) -> List[Any]:
 
 
 # --------------------------------------------------------------------------------------------
+# constants as text (tie of Model/PyRepr.lean and Spec/PyLiteral.lean)
+# --------------------------------------------------------------------------------------------
+
+
+def canon_pv(pv: Any) -> Any:
+    """floats by value: `1e300` (black) and `1e+300` (repr) are the same constant"""
+    if pv is None:
+        return None
+    (k, v), = pv.items()
+    if k == "f":
+        try:
+            return {"f": repr(float(v))}
+        except ValueError:
+            return {"f": v}
+    if k == "l":
+        return {"l": [canon_pv(x) for x in v]}
+    if k == "d":
+        return {"d": [[a, canon_pv(b)] for a, b in v]}
+    return pv
+
+
+def canon_cexpr(c: Any) -> Any:
+    return {"c": canon_pv(c["c"])} if isinstance(c, dict) and "c" in c else c
+
+
+def _segment(lines: List[bytes], node: ast.AST) -> Optional[str]:
+    """source text of a node (col offsets are UTF-8 byte offsets)"""
+    try:
+        l0, c0, l1, c1 = node.lineno - 1, node.col_offset, node.end_lineno - 1, node.end_col_offset  # type: ignore[attr-defined]
+    except AttributeError:
+        return None
+    if l0 == l1:
+        return lines[l0][c0:c1].decode("utf-8")
+    parts = [lines[l0][c0:]] + lines[l0 + 1: l1] + [lines[l1][:c1]]
+    return b"\n".join(parts).decode("utf-8")
+
+
+def literal_segments(text: str, limit: int = 4000) -> List[List[Any]]:
+    """[[source text, what CPython makes of it as a CExpr JSON]] for every constant position of a module text: the values of
+    keyword arguments that are literals or bare names, and the string keys of the remaining dict displays"""
+    try:
+        tree = ast.parse(text)
+    except SyntaxError:
+        return []
+    lines = text.encode("utf-8").split(b"\n")
+    seen: Dict[str, Any] = {}
+
+    def add(node: ast.AST) -> bool:
+        try:
+            c = cexpr(node)
+        except Unrecognised:
+            return False
+        seg = _segment(lines, node)
+        if seg is not None and seg not in seen and len(seen) < limit:
+            seen[seg] = c
+        return True
+
+    for node in ast.walk(tree):
+        if isinstance(node, ast.keyword):
+            add(node.value)
+        elif isinstance(node, ast.Dict):
+            try:
+                _lit(node)
+            except Unrecognised:
+                for k in node.keys:
+                    if k is not None:
+                        add(k)
+    return [[k, v] for k, v in seen.items()]
+
+
+def module_constants(mod: ast.AST, limit: int = 4000) -> List[List[Any]]:
+    """[[PV, the text ast.unparse writes for the node]] for every `ast.Constant` of the module AST the generator returned
+    (the value object itself is read off the node: nothing is parsed here)"""
+    seen: Dict[str, Any] = {}
+    for node in ast.walk(mod):
+        if isinstance(node, ast.Constant):
+            try:
+                pv = pyval(node.value)
+            except Unrecognised:
+                continue  # graphql-core's Undefined: written as a name
+            t = ast.unparse(node)
+            if t not in seen and len(seen) < limit:
+                seen[t] = pv
+    return [[v, k] for k, v in seen.items()]
+
+
+# --------------------------------------------------------------------------------------------
 # PyModuleIR -> Python text
 # --------------------------------------------------------------------------------------------
 
